@@ -82,7 +82,7 @@ def gshell(sh, cls=None):
 
         base = Conv
     return base(sh.l, np.array(sh.center, dtype=float), np.array(sh.coeffs, dtype=float),
-                np.array(sh.exps, dtype=float), sh.ctype)
+                np.array(sh.exps, dtype=float), sh.ctype, icenter=sh.icenter)
 
 
 def gbasis_of(shells):
@@ -119,8 +119,9 @@ class Obs:
     def call(self, n=1):
         self.calls += n
 
-    def cmp(self, name, got, ref, tol, scale=1.0, key=None, floor=0.0):
-        """|got - ref| <= tol*scale + 1e-13*scale + floor, element-wise (scale may be an array)."""
+    def cmp(self, name, got, ref, tol, scale=1.0, key=None, floor=1e-290):
+        """|got - ref| <= tol*scale + 1e-13*scale + floor, element-wise (scale may be an array).
+        The default floor (1e-290) only exempts the denormal / underflow range of IEEE doubles."""
         self.validated += 1
         got = np.asarray(got)
         ref = np.asarray(ref)
